@@ -76,9 +76,12 @@ var embNames = []string{"bare", "nested-in-format", "upper-case",
 	// text that holds the closing braces `}}` (a Go template, JSON) stands before the placeholder
 	"closing-braces-before-placeholder",
 	// the name stands inside the brackets of an index access whose operand is a call of unknown type
-	"index-into-unknown"}
+	"index-into-unknown",
+	// a special function called with arguments no overload accepts: whether it may be called at the
+	// key does not depend on that (functions only; both tiers)
+	"call-with-wrong-arguments"}
 
-const embTextBefore, embSecond, embBraces, embIndexUnknown = 11, 12, 13, 14
+const embTextBefore, embSecond, embBraces, embIndexUnknown, embWrongArgs = 11, 12, 13, 14, 15
 
 const quickEmbeddings = 3
 
@@ -95,6 +98,13 @@ func exprFor(name string, isFn bool, emb int) string {
 			e = name + "('a')"
 		} else {
 			e = name + "()"
+		}
+		if emb == embWrongArgs {
+			if strings.EqualFold(name, "hashFiles") {
+				e = name + "()"
+			} else {
+				e = name + "(1, 'x')"
+			}
 		}
 	}
 	switch emb {
@@ -648,6 +658,11 @@ func main() {
 			}
 			for _, f := range sp.funcs {
 				cases = append(cases, makeCase(pi, f, true, embIndexUnknown))
+			}
+		}
+		if nEmb <= embWrongArgs {
+			for _, f := range sp.funcs {
+				cases = append(cases, makeCase(pi, f, true, embWrongArgs))
 			}
 		}
 		if *tier != "thorough" && positions[pi].Form == 0 && acceptsText(pi) {
